@@ -34,6 +34,11 @@ def generate(rng, tier, seed):
         sched = rng.choice([["random", base, nrun], ["pct", 3, base, nrun]])
         cases.append({"scn": ["conc", ["objects", ["pipe", ["op", "take", [k], ["interval", d]]]], ["init", ["sub", 0, 0]], ["threads"], ["fini"], ["sched"] + sched],
                       "kind": "interval", "d": d, "k": k})
+        if rng.random() < 0.15:
+            # a long run: a ticker that drifts, resynchronises or stops after some number of ticks shows only after many of them
+            kk = rng.choice([17, 33, 70])
+            cases.append({"scn": ["conc", ["objects", ["pipe", ["op", "take", [kk], ["interval", d]]]], ["init", ["sub", 0, 0]], ["threads"], ["fini"], ["sched", "random", base, 2]],
+                          "kind": "interval", "d": d, "k": kk})
         tu = rng.choice([1, d + 1, 2 * d + 1, 3 * d + 2])
         cases.append({"scn": ["conc", ["objects", ["pipe", ["interval", d]]], ["init", ["sub", 0, 0]], ["threads", ["u", ["sleep", tu], ["unsub", 0]]], ["fini"], ["sched"] + sched],
                       "kind": "interval-unsub", "d": d, "tu": tu})
